@@ -349,6 +349,20 @@ def get_value_type_by_c_number(items: [Token]) -> ValueType:
     size = 32
     if postfix in c_64bit_postfix:
         size = 64
+
+    # ISO/IEC 9899:201x 6.4.4.1: the type of an integer constant is the first of the list
+    # in which its value can be represented. Decimal constants without "U" never become unsigned.
+    is_decimal = get_num_base_by_token(items[0]) == 10
+    if signed and val >= 2 ** (size - 1):
+        if not is_decimal and val < 2**size:
+            signed = False
+        elif size == 32 and val < 2**63:
+            size = 64
+        elif not is_decimal:
+            signed = False
+            size = 64
+    elif not signed and val >= 2**size:
+        size = 64
     return ValueType(signed, size)
 
 
